@@ -4,6 +4,7 @@ package handlers
 
 import (
 	"context"
+	"fmt"
 	"sync/atomic"
 
 	"github.com/mimecast/dtail/internal/lcontext"
@@ -63,4 +64,13 @@ func VerifMakeGlobID(path, glob string) (id string, panicked bool) {
 	r := &readCommand{}
 	id = r.makeGlobID(path, glob)
 	return
+}
+
+// VerifAggregatePtr returns the address of the session's server-side aggregator ("" if none), the
+// first argument of the "aggregate.nomore" hook.
+func (h *ServerHandler) VerifAggregatePtr() string {
+	if h.aggregate == nil {
+		return ""
+	}
+	return fmt.Sprintf("%p", h.aggregate)
 }
